@@ -1474,6 +1474,8 @@ def replay_scopes(w):
     cases = [
         ("{% for x in xs %}{% set y = x %}{% endfor %}[{{ x }}{{ y }}]", {"xs": [1]}, "[]"),
         ("{% for x in x %}{{ x }}{% endfor %}", {"x": [1, 2]}, "12"),
+        ("{% for x in xs %}{% set y = x %}{% endfor %}[{{ y }}]", {"xs": [1], "y": 9}, "[9]"),
+        ("{% with y = 1 %}{% endwith %}[{{ y }}]{% macro m(y) %}{% endmacro %}[{{ y }}]", {"y": 9}, "[9][9]"),
         ("{% for x in xs if x > lim %}{{ x }}{% endfor %}", {"xs": [1, 2, 3], "lim": 1}, "23"),
         ("{% for x in [] %}{% else %}{{ e }}{% endfor %}", {"e": "E"}, "E"),
         ("{% with a = b %}{{ a }}{% set c = 1 %}{% endwith %}[{{ a }}{{ c }}]", {"b": 5}, "5[]"),
